@@ -288,6 +288,7 @@ struct ShellOps
   std::function<std::vector<std::string>(void*, int port)> client_ids;
   std::function<const dzn::meta*(void* comp)> comp_parent;
   std::function<std::string(void* comp)> comp_name;
+  std::function<void(const dzn::locator&)> companion;   // constructs and destroys the companion shell (another generated shell in this program), or empty
 };
 
 struct Model
@@ -296,6 +297,7 @@ struct Model
   std::vector<EventDesc> events;
   ShellOps shell;
   int mc_port = -1, claim_ev = -1, release_ev = -1;
+  bool companion_creates = false;   // facilities origin of the companion shell
   long long grant_value = 0;
   std::vector<long long> deny_values;
   std::vector<std::pair<std::string, bool>> static_facts;  // compile-time facts reported by --describe
